@@ -446,6 +446,12 @@ class Acceptor(object):
                     target[1].append(cid)
         if ev.get("raised"):
             self.any_fail.append((ev["kind"], ev.get("name"), ev["raised"], ev["seq"]))
+        if ev["kind"] == "hook" and ev.get("raised") == "KeyboardInterrupt":
+            # an interrupt inside a hook aborts the run; what still runs afterwards is not
+            # specified by any property: trace checking ends here, the end-of-run checks
+            # (exit code, streams, logger) stay in force
+            self.p.notes["hook_interrupt"] = ev["name"]
+            self.p.dead = True
 
     def barrier(self, eid, hint):
         """The next event must not belong to the inside of element `eid`."""
